@@ -619,7 +619,9 @@ def run_history(text, ops):
     doc = K.must_load(text)
     model = K.model_of(doc)
     trace = []
+    done = []                      # the ops actually executed (skipped ones are not part of a witness input)
     for n, op in enumerate(ops):
+        done.append(op)
         before = K.canon(doc)
         if before != K.model_canon(model):
             raise K.HarnessError("model and document diverged without a reported failure")
@@ -632,6 +634,7 @@ def run_history(text, ops):
                 return {"status": "oos", "oos": "get_nodes-changed-the-document", "steps": n, "trace": trace}
             if status == "nomatch":
                 trace.append("skip")
+                done.pop()
                 continue
             if status != "ok":
                 return {"status": "oos", "oos": "history-step-get_nodes-%s" % status, "steps": n, "trace": trace}
@@ -641,6 +644,7 @@ def run_history(text, ops):
                 return {"status": "oos", "oos": "coords-unresolvable/%s" % ex, "steps": n, "trace": trace}
             if not positions or () in positions:
                 trace.append("skip")
+                done.pop()
                 continue
         if kind == "delete":
             matched_nodes = {p: K.canon(K.node_at(doc, p)) for p in set(positions)}
@@ -665,7 +669,7 @@ def run_history(text, ops):
                     if not cl and oos:
                         return {"status": "oos", "oos": oos, "steps": n, "trace": trace}
                     cl = [("history-delete/" + s, w) for s, w in cl]
-                return _hist_fail(text, ops, n, cl, obs, exc, exp, trace)
+                return _hist_fail(text, done, n, cl, obs, exc, exp, trace)
             trace.append("delete")
             continue
         vcanon = vcanon_of(op["value"])
@@ -677,15 +681,16 @@ def run_history(text, ops):
             trial = model_create(copy.deepcopy(model), segs, vcanon)
             if trial is None:
                 trace.append("skip")
+                done.pop()
                 continue
             # the position the straight-line path addresses (existing or new)
             pos = tuple((k, ("str:" + r) if k == "k" else r) for k, r in segs)
             try:
-                cur = K.model_get(model, pos)
-                matched = {pos}
+                K.model_get(model, pos)
+                exists = True
             except KeyError:
-                cur, matched = None, {pos}
-            _m, aliases, ids = prepare_set(doc, model, [pos] if cur is not None else [])
+                exists = False
+            _m, aliases, ids = prepare_set(doc, model, [pos] if exists else [])
             matched = {pos}
             model = model_create(model, segs, vcanon)
         exp = K.model_canon(model)
@@ -713,7 +718,7 @@ def run_history(text, ops):
                 cl = [("history-create/" + s, w) for s, w in cl]
             if not cl:
                 raise K.HarnessError("history step failed without a classified difference: %r %r" % (text, ops[:n + 1]))
-            return _hist_fail(text, ops, n, cl, obs, exc, exp, trace)
+            return _hist_fail(text, done, n, cl, obs, exc, exp, trace)
         trace.append(kind)
     return {"status": "ok", "steps": len(ops), "trace": trace, "witnesses": [], "doc": text,
             "ops": [[o["op"], o["path"]] + ([o["value"]] if "value" in o else []) for o in ops],
@@ -721,12 +726,11 @@ def run_history(text, ops):
             "sig": [PROP, "history", K.skeleton(K.canon(K.must_load(text))), trace]}
 
 
-def _hist_fail(text, ops, n, cl, obs, exc, exp, trace):
+def _hist_fail(text, done, n, cl, obs, exc, exp, trace):
     return {"status": "witness", "steps": n + 1, "trace": trace + ["FAIL"], "failed_at": n,
-            "witnesses": [("%s/%s" % (PROP, s), "%s (step %d of an edit history)" % (w, n + 1), describe(obs, exc), K.pretty(exp))
-                          for s, w in cl],
+            "witnesses": [("%s/%s" % (PROP, s), w, describe(obs, exc), K.pretty(exp)) for s, w in cl],
             "sig": [PROP, "history", text, trace, cl[0][0]],
-            "inp": {"kind": "history", "yaml": text, "ops": ops[:n + 1]}}
+            "inp": {"kind": "history", "yaml": text, "ops": list(done)}}
 
 
 def _hist_chunk(items, length):
